@@ -5,7 +5,7 @@ YAML document order, the std::map order and the model's association-list order c
 """
 import random
 
-GEN_VERSION = 3
+GEN_VERSION = 4
 
 # ---------------------------------------------------------------- codec
 def hx(s):
@@ -114,15 +114,55 @@ def parse_case_file(text):
 
 
 # ---------------------------------------------------------------- generator
+def resolve_idx(key, n):
+    """ConfigData::ResolveListIndex(list of n items, key, read_only=true)"""
+    cur, index = 1, 0
+    if key.startswith("next", cur):
+        cur += 4
+        index = n
+    elif key.startswith("before", cur):
+        cur += 6
+    elif key.startswith("after", cur):
+        cur += 5
+        index += 1
+    if key[cur:cur + 1] == " ":
+        cur += 1
+    if key.startswith("last", cur):
+        index += n
+        if index != 0:
+            index -= 1
+    else:
+        digits = ""
+        for ch in key[cur:]:
+            if not ch.isdigit():
+                break
+            digits += ch
+        index += int(digits) if digits else 0
+    return index
+
+
+def idx_aliases(i, n):
+    """every read-only spelling of element i of a list of n items"""
+    out = ["@%d" % i, "@before %d" % i]
+    if i >= 1:
+        out.append("@after %d" % (i - 1))
+    if i == n - 1:
+        out += ["@last", "@before last"]
+        if n == 1:
+            out.append("@after last")     # (before|after) last on a one-item list: 1 + 1 - 1 ... see resolve_idx
+    return [a for a in out if resolve_idx(a, n) == i]
+
+
 def follow(tree, path):
     t = tree
     for k in path:
         if isinstance(t, dict):
             t = t.get(k)
-        elif isinstance(t, list) and k.startswith("@") and k[1:].isdigit() and int(k[1:]) < len(t):
-            t = t[int(k[1:])]
-        elif isinstance(t, list) and k == "@last" and t:
-            t = t[-1]
+        elif isinstance(t, list) and k.startswith("@"):
+            i = resolve_idx(k, len(t))
+            if i >= len(t):
+                return None
+            t = t[i]
         else:
             return None
     return t
@@ -186,7 +226,13 @@ class Gen:
             elif isinstance(t, list) and t and not self.risky(0.08):
                 if (self.ch(0.7) or not for_write) and t:
                     i = r.randrange(len(t))
-                    out.append(r.choice(["@%d" % i, "@%d" % i, "@last" if i == len(t) - 1 else "@%d" % i]))
+                    if self.ch(0.55):
+                        out.append("@%d" % i)
+                    else:
+                        a = r.choice(idx_aliases(i, len(t)))
+                        out.append(a)
+                        if not a[1:].isdigit():
+                            self.features.add("ref-list-index-alias")
                     t = t[i]
                 else:
                     out.append(r.choice(IDX))
@@ -459,21 +505,36 @@ class SetGen:
             root["p1"] = dict(g.literal(root if g.risk else None, 1), __patch=r.choice(["/p0", "p0", name + ":/p0"]))
             g.features.add("patch-references-patch")
         nx = r.randint(1, 3)
+        # directive nodes are created x-first-to-last and may refer to the ones created before them; ConfigMap parses its keys in
+        # sorted order, so naming them in reverse creation order turns those into *forward* references (the target still has
+        # pending dependencies when the reference is resolved)
+        rev = nx > 1 and g.ch(0.5)
+        if rev:
+            g.features.add("forward-refs")
+        xname = (lambda i: "x%d" % (nx - 1 - i)) if rev else (lambda i: "x%d" % i)
         for i in range(nx):
             local_tree = dict(root)
             if arbitrary:
                 for j in range(nx):
                     local_tree.setdefault("x%d" % j, {"a": "x"})
-            if g.ch(0.15):
-                root["x%d" % i] = [self.dnode(name, local_tree, allow_docs, 1) for _ in range(r.randint(1, 3))]
+            if g.ch(0.2):
+                root[xname(i)] = [self.dnode(name, local_tree, allow_docs, 1) for _ in range(r.randint(1, 3))]
                 g.features.add("directive-nodes-in-list")
             else:
-                root["x%d" % i] = self.dnode(name, local_tree, allow_docs, 2)
+                root[xname(i)] = self.dnode(name, local_tree, allow_docs, 2)
         if g.ch(0.15):
             root["__patch"] = self.patch_value(name, root, allow_docs, root, 1)
             g.features.add("root-patch")
-        if g.ch(0.08) and allow_docs:
-            root["__include"] = r.choice(allow_docs) + r.choice([":/", ":/d0", ":/x0"])
+        if g.ch(0.12) and allow_docs:
+            d = r.choice(allow_docs)
+            t = self.trees.get(d) or {}
+            maps = [k for k, v in t.items() if isinstance(v, dict) and not k.startswith("__") and "/" not in k
+                    and not isinstance(v.get("__include"), (dict, list))]
+            if g.ch(0.75):
+                # mostly something that can be merged with the local root: the whole document or one of its maps
+                root["__include"] = d + (":/" if (not maps or g.ch(0.4)) else ":/" + r.choice(maps))
+            else:
+                root["__include"] = d + r.choice([":/", ":/d0", ":/x0"])
             g.features.add("root-include")
         return root
 
@@ -513,7 +574,9 @@ class SetGen:
             docs[n] = t
             self.trees[n] = t
         for n in list(docs):
-            if g.ch(0.3):
+            if g.ch(0.6 if (isinstance(docs[n], dict) and "__include" in docs[n]) else 0.3):
+                if "__include" in docs[n]:
+                    g.features.add("root-include+custom")
                 stem = n[:-7] if n.endswith(".schema") else n
                 cust = {"patch": g.literal(docs[n], 1)}
                 if g.ch(0.1):
